@@ -856,10 +856,10 @@ Fixpoint run_op (fuel : nat) (o : op) {struct fuel} : M unit :=
       else                                                (* the ancestors and the window are held across the call *)
         cd <- getw w ;; count_up f (w_parent cd) ;;;
         cd' <- getw w ;; held <- ref_up f (w_parent cd') ;;
-        log_op (OFrameRef w) ;;; window_ref w ;;;
-        set_geometry f w ;;;
-        c2 <- getw w ;; (if w_focused c2 then focus_chain_changed f (Some w) else ret tt) ;;;
-        log_op (OFrameUnref w) ;;; unref f w ;;;
+        ((log_op (OFrameRef w) ;;; window_ref w) ;;;
+         (set_geometry f w ;;;
+          (c2 <- getw w ;; if w_focused c2 then focus_chain_changed f (Some w) else ret tt)) ;;;
+         (log_op (OFrameUnref w) ;;; unref f w)) ;;;
         unref_list f held
     (* the terminal's RESIZE binding of the root window exists exactly while it lives *)
     | OResize =>
@@ -938,9 +938,9 @@ with set_geometry (fuel : nat) (w : positive) {struct fuel} : M unit :=
     else
       cd <- getw w ;; count_up f (w_parent cd) ;;;
       cd' <- getw w ;; held <- ref_up f (w_parent cd') ;;
-      log_op (OFrameRef w) ;;; window_ref w ;;;
-      c <- getw w ;; run_ev_handlers f w (w_hs c) HGeom ;;;
-      log_op (OFrameUnref w) ;;; unref f w ;;;
+      ((log_op (OFrameRef w) ;;; window_ref w) ;;;
+       (c <- getw w ;; run_ev_handlers f w (w_hs c) HGeom) ;;;
+       (log_op (OFrameUnref w) ;;; unref f w)) ;;;
       unref_list f held
   end
 (* on_term_resize with one line more: oldlines = win->rect.lines; tickit_window_resize; tickit_window_expose(the new line) *)
@@ -950,10 +950,9 @@ with on_term_resize (fuel : nat) {struct fuel} : M unit :=
   | S f =>
     let root := 1%positive in
     getw root ;;;
-    (if v_events_asis V then ret tt else log_op (OFrameRef root) ;;; window_ref root) ;;;
-    set_geometry f root ;;;
-    expose f root ;;;
-    (if v_events_asis V then ret tt else log_op (OFrameUnref root) ;;; unref f root)
+    ((if v_events_asis V then ret tt else log_op (OFrameRef root) ;;; window_ref root) ;;;
+     (set_geometry f root ;;; expose f root) ;;;
+     (if v_events_asis V then ret tt else log_op (OFrameUnref root) ;;; unref f root))
   end
 (* _do_expose (every rectangle intersects): a reference on the window; the children from a copy of the list, each
    only while it still is a child; then the window's own EXPOSE handlers *)
@@ -962,9 +961,9 @@ with do_expose (fuel : nat) (w : positive) {struct fuel} : M unit :=
   | O => nofuel
   | S f =>
     (if v_events_asis V then ret tt else log_op (OFrameRef w) ;;; window_ref w) ;;;
-    (if v_events_asis V then c <- getw w ;; expose_kids_asis f w (w_first c)
-     else kids <- copy_children f w ;; expose_kids f w kids) ;;;
-    c <- getw w ;; run_ev_handlers f w (w_hs c) HExpose ;;;
+    ((if v_events_asis V then c <- getw w ;; expose_kids_asis f w (w_first c)
+      else kids <- copy_children f w ;; expose_kids f w kids) ;;;
+     (c <- getw w ;; run_ev_handlers f w (w_hs c) HExpose)) ;;;
     (if v_events_asis V then ret tt else log_op (OFrameUnref w) ;;; unref f w)
   end
 with expose_kids (fuel : nat) (w : positive) (kids : list positive) {struct fuel} : M unit :=
@@ -979,7 +978,7 @@ with expose_kids (fuel : nat) (w : positive) (kids : list positive) {struct fuel
       else
         ck <- getw k ;;
         if negb (w_visible ck) then expose_kids f w kids'
-        else do_expose f k ;;; is_child f w k ;;; expose_kids f w kids'      (* the mask only if it still is a child *)
+        else do_expose f k ;;; (is_child f w k ;;; expose_kids f w kids')      (* the mask only if it still is a child *)
     end
   end
 (* pinned: for(child = win->first_child; child; child = child->next) { if(!child->is_visible) continue; ...; mask(&child->rect); } *)
@@ -1002,15 +1001,15 @@ with focus_lost (fuel : nat) (w : positive) {struct fuel} : M unit :=
   | O => nofuel
   | S f =>
     (if v_events_asis V then ret tt else log_op (OFrameRef w) ;;; window_ref w) ;;;
-    c <- getw w ;;
-    (match w_focus c with
-     | Some fc =>
-       focus_lost f fc ;;;
-       c' <- getw w ;; if w_fcn c' then run_ev_handlers f w (w_hs c') HFocus else ret tt
-     | None => ret tt
-     end) ;;;
-    c2 <- getw w ;;
-    (if w_focused c2 then setw w (set_focused c2 false) ;;; c3 <- getw w ;; run_ev_handlers f w (w_hs c3) HFocus else ret tt) ;;;
+    ((c <- getw w ;;
+      match w_focus c with
+      | Some fc =>
+        focus_lost f fc ;;;
+        (c' <- getw w ;; if w_fcn c' then run_ev_handlers f w (w_hs c') HFocus else ret tt)
+      | None => ret tt
+      end) ;;;
+     (c2 <- getw w ;;
+      if w_focused c2 then setw w (set_focused c2 false) ;;; (c3 <- getw w ;; run_ev_handlers f w (w_hs c3) HFocus) else ret tt)) ;;;
     (if v_events_asis V then ret tt else log_op (OFrameUnref w) ;;; unref f w)
   end
 (* _focus_gained *)
@@ -1019,37 +1018,38 @@ with focus_gained (fuel : nat) (w : positive) (child : ptr) {struct fuel} : M un
   | O => nofuel
   | S f =>
     (if v_events_asis V then ret tt else log_op (OFrameRef w) ;;; window_ref w) ;;;
-    c <- getw w ;;
-    (match w_focus c with                         (* if(win->focused_child && win->focused_child != child) *)
-     | Some fc =>
-       if negb (ptr_eqb (Some fc) child) then
-         focus_lost f fc ;;;
-         c' <- getw w ;; if w_fcn c' then run_ev_handlers f w (w_hs c') HFocus else ret tt
-       else ret tt
-     | None => ret tt
-     end) ;;;
-    (match child with                             (* if(child && win->is_focused) *)
-     | Some _ =>
-       c0 <- getw w ;;
-       if w_focused c0 then setw w (set_focused c0 false) ;;; c0' <- getw w ;; run_ev_handlers f w (w_hs c0') HFocus else ret tt
-     | None => ret tt
-     end) ;;;
-    c1 <- getw w ;;
-    (match w_parent c1 with
-     | Some p => if w_visible c1 then focus_gained f p (Some w) else ret tt
-     | None => root <- get_root f w ;; request_restore root
-     end) ;;;
-    (match child with
-     | None => upd w (fun c => set_focused c true) ;;; c4 <- getw w ;; run_ev_handlers f w (w_hs c4) HFocus
-     | Some _ => c4 <- getw w ;; if w_fcn c4 then run_ev_handlers f w (w_hs c4) HFocus else ret tt
-     end) ;;;
-    (* win->focused_child = (child && child->parent != win) ? NULL : child   (pinned: = child) *)
-    (match child with
-     | Some ch =>
-       if v_events_asis V then upd w (fun c => set_focus c child)
-       else cch <- getw ch ;; upd w (fun c => set_focus c (if ptr_eqb (w_parent cch) (Some w) then child else None))
-     | None => upd w (fun c => set_focus c None)
-     end) ;;;
+    ((c <- getw w ;;
+      match w_focus c with                         (* if(win->focused_child && win->focused_child != child) *)
+      | Some fc =>
+        if negb (ptr_eqb (Some fc) child) then
+          focus_lost f fc ;;;
+          (c' <- getw w ;; if w_fcn c' then run_ev_handlers f w (w_hs c') HFocus else ret tt)
+        else ret tt
+      | None => ret tt
+      end) ;;;
+     ((match child with                             (* if(child && win->is_focused) *)
+       | Some _ =>
+         c0 <- getw w ;;
+         if w_focused c0 then setw w (set_focused c0 false) ;;; (c0' <- getw w ;; run_ev_handlers f w (w_hs c0') HFocus) else ret tt
+       | None => ret tt
+       end) ;;;
+      ((c1 <- getw w ;;
+        match w_parent c1 with
+        | Some p => if w_visible c1 then focus_gained f p (Some w) else ret tt
+        | None =>                                  (* not necessarily the root: a handler may have closed the window *)
+          if v_events_asis V then root <- get_root f w ;; request_restore root else focus_chain_changed f (Some w)
+        end) ;;;
+       ((match child with
+         | None => upd w (fun c => set_focused c true) ;;; (c4 <- getw w ;; run_ev_handlers f w (w_hs c4) HFocus)
+         | Some _ => c4 <- getw w ;; if w_fcn c4 then run_ev_handlers f w (w_hs c4) HFocus else ret tt
+         end) ;;;
+        (* win->focused_child = (child && child->parent != win) ? NULL : child   (pinned: = child) *)
+        (match child with
+         | Some ch =>
+           if v_events_asis V then upd w (fun c => set_focus c child)
+           else cch <- getw ch ;; upd w (fun c => set_focus c (if ptr_eqb (w_parent cch) (Some w) then child else None))
+         | None => upd w (fun c => set_focus c None)
+         end))))) ;;;
     (if v_events_asis V then ret tt else log_op (OFrameUnref w) ;;; unref f w)
   end
 (* tickit_window_flush *)
@@ -1061,13 +1061,13 @@ with window_flush (fuel : nat) (w : positive) {struct fuel} : M unit :=
     if go then
       (* the root is still used after the expose handlers have run: a reference on it *)
       (if v_events_asis V then ret tt else log_op (OFrameRef w) ;;; window_ref w) ;;;
-      r2 <- getr w ;;
-      (if r_expose r2 then
-         setr w (set_rexpose r2 false) ;;;
-         do_expose f w ;;;
-         updr w (fun r => set_rrestore r true)
-       else ret tt) ;;;
-      flush_end f w ;;;
+      ((r2 <- getr w ;;
+        if r_expose r2 then
+          setr w (set_rexpose r2 false) ;;;
+          (do_expose f w ;;;
+           updr w (fun r => set_rrestore r true))
+        else ret tt) ;;;
+       flush_end f w) ;;;
       (if v_events_asis V then ret tt else log_op (OFrameUnref w) ;;; unref f w)
     else ret tt
   end
